@@ -31,7 +31,7 @@ RULE = ("(a) registration sequences: every sequence of length <= 4 over the 10 r
         "generator-based or exit stacks, chosen per position from the seed.  (b) random manager trees of depth <= 4 "
         "mixing plain / generator-based (sync, async, yield from) managers and exit stacks, owned by a coroutine or a "
         "generator observed suspended in the body, suspended inside an async manager's exit, or running inside any "
-        "manager's exit, including exit stacks observed in the middle of their own exit (a later callback running, earlier ones pending).  Every tree is extracted twice in a row (equal results required).  (c) histories: an extraction "
+        "manager's exit (left normally or by an exception: throw()/athrow() into the manager's generator, cleanup in except or finally), including exit stacks observed in the middle of their own exit (a later callback running, earlier ones pending).  Every tree is extracted twice in a row (equal results required).  (c) histories: an extraction "
         "made to fail part-way (every plain manager's __repr__ raises), then two more extractions of the same still-entered "
         "tree.  (d) concurrent registration: the owner thread is parked inside `with ExitStack()`; the __repr__ of one "
         "registered manager, called by the extracting thread, makes the owner register one more callback and waits for it "
@@ -110,7 +110,7 @@ def gen_wth(rng, d, fk):
     return {"a": a, "n": rng.random() < 0.6, "m": gen_mgr(rng, d, a)}
 
 
-def gen_frm(rng, d, fk, on_path, body, mode):
+def gen_frm(rng, d, fk, on_path, body, mode, resumed=None):
     ws = [gen_wth(rng, d, fk) for _ in range(rng.choice([0, 1, 1, 2, 3]) if d > 0 else rng.choice([0, 0, 1]))]
     tail = ["stop"]
     r = rng.random()
@@ -124,21 +124,23 @@ def gen_frm(rng, d, fk, on_path, body, mode):
             tail = ["deleg", gen_frm(rng, d - 1, "gen" if fk == "gen" else "coro", True, False, mode)]
         elif r < 0.75 and can_exit:
             a = can_async and (mode == "susp" or rng.random() < 0.5)
+            # the with-block is left normally, or by an exception (throw()/athrow() into the manager's generator)
+            exc = resumed or rng.choice([None, None, "except", "finally"])
             r2 = rng.random()
             if r2 < 0.35:
-                m = gen_exiting_stack(rng, d, a, mode)
+                m = gen_exiting_stack(rng, d, a, mode, exc)
             elif r2 < 0.8:
                 m = {"t": "gen", "a": a, "f": rng.random() < 0.15,
-                     "body": gen_frm(rng, d - 1, "agen" if a else "gen", True, True, mode)}
+                     "body": gen_frm(rng, d - 1, "agen" if a else "gen", True, True, mode, resumed=exc)}
             else:
                 m = _plain(a, rng.random() < 0.15)
-            tail = ["exit", {"a": a, "n": rng.random() < 0.6, "m": m}]
+            tail = ["exit", {"a": a, "n": rng.random() < 0.6, "m": m, "exc": exc}]
     if body and on_path and fk == "gen" and mode == "susp":
         raise AssertionError("sync manager on the suspended path")
     return {"ws": ws, "tail": tail}
 
 
-def gen_exiting_stack(rng, d, a, mode):
+def gen_exiting_stack(rng, d, a, mode, exc=None):
     """an exit stack observed in the middle of its own exit: pending callbacks + the popped, running one"""
     cbs = [gen_cb(rng, d - 1, a, weights=(2, 5, 2)) for _ in range(rng.choice([1, 1, 2, 3]))]
     cur_async = a and (mode == "susp" or rng.random() < 0.5)
@@ -146,7 +148,7 @@ def gen_exiting_stack(rng, d, a, mode):
     if r < 0.5 and d > 0:
         cur = {"k": "entera" if cur_async else "enter", "x": False,
                "m": {"t": "gen", "a": cur_async, "f": False,
-                     "body": gen_frm(rng, d - 1, "agen" if cur_async else "gen", True, True, mode)}}
+                     "body": gen_frm(rng, d - 1, "agen" if cur_async else "gen", True, True, mode, resumed=exc)}}
     elif r < 0.7:
         cur = {"k": "entera" if cur_async else "enter", "x": False, "m": _plain(cur_async)}
     else:
@@ -212,6 +214,20 @@ def specials():
         ex2 = gcm(True, _frm([_wth(_plain(True))], ["exit", _wth(gcm(True, _frm([_wth(gcm(False))])))]))
         out.append({"root": _frm([], ["exit", _wth(ex2)]), "mode": mode, "rk": "coro"})
         out.append({"root": _frm([_wth(gcm(True))], ["exit", _wth(_plain(True))]), "mode": mode, "rk": "coro"})
+    # with-blocks left by an exception: contextlib drives the manager's generator with throw() / athrow()
+    for mode in ("susp", "run"):
+        for flav in ("except", "finally"):
+            ex = gcm(True, _frm([_wth(_plain(True)), _wth(gcm(False))], ["deleg", _frm([_wth(_plain(False))])]))
+            out.append({"root": _frm([_wth(gcm(True))], ["exit", dict(_wth(ex), exc=flav)]), "mode": mode, "rk": "coro"})
+            ex2 = gcm(True, _frm([_wth(_plain(True))], ["exit", dict(_wth(gcm(True, _frm([_wth(gcm(False))]))), exc=flav)]))
+            out.append({"root": _frm([], ["exit", dict(_wth(ex2), exc=flav)]), "mode": mode, "rk": "coro"})
+            st = {"t": "stack", "a": True, "f": False,
+                  "cbs": [{"k": "entera", "x": False, "m": gcm(True)}, {"k": "enter", "x": False, "m": gcm(False)}],
+                  "cur": {"k": "entera", "x": False, "m": gcm(True, _frm([_wth(gcm(False))], ["deleg", _frm()]))}}
+            out.append({"root": _frm([_wth(gcm(False))], ["exit", dict(_wth(st), exc=flav)]), "mode": mode, "rk": "coro"})
+    for flav in ("except", "finally"):
+        sx = gcm(False, _frm([_wth(gcm(False))], ["deleg", _frm([_wth(_plain(False))])]))
+        out.append({"root": _frm([_wth(_plain(False))], ["exit", dict(_wth(sx), exc=flav)]), "mode": "run", "rk": "gen"})
     exs = gcm(False, _frm([_wth(gcm(False))], ["deleg", _frm([_wth(_plain(False))])]))
     out.append({"root": _frm([_wth(_plain(False))], ["exit", _wth(exs)]), "mode": "run", "rk": "gen"})
     out.append({"root": _frm([_wth(_plain(True))], ["exit", _wth(copy.deepcopy(exs))]), "mode": "run", "rk": "coro"})
@@ -644,6 +660,8 @@ def classify(desc, obs):
     if t == "exit" and desc["root"]["tail"][1]["m"]["t"] == "stack":
         t = "exit-stack(pending=%d)" % min(len(desc["root"]["tail"][1]["m"]["cbs"]), 4)
     labs.append("tail:" + t)
+    if desc["root"]["tail"][0] == "exit":
+        labs.append("exit-route:" + (desc["root"]["tail"][1].get("exc") or "normal"))
     ws = desc["root"]["ws"]
     if len(ws) == 1 and ws[0]["m"]["t"] == "stack":
         labs.append("stacklen=%d" % len(ws[0]["m"]["cbs"]))
